@@ -324,7 +324,7 @@ def _sha(data):
 
 # ------------------------------------------------------------------------------------------------
 # in-toto-verify
-VERIFY_CLASSES = ["pass", "bad_sig", "expired", "missing_links", "threshold", "rule_violation", "insp_fail", "sub_insp_slow",
+VERIFY_CLASSES = ["pass", "bad_sig", "expired", "expired_recently", "valid_an_hour", "garbage_extra_link", "missing_links", "threshold", "rule_violation", "insp_fail", "sub_insp_slow",
                   "link_tamper", "malformed_layout", "missing_layout", "missing_key", "malformed_key", "wrong_key",
                   "extra_key", "priv_as_pub", "keytypes_mismatch", "linkdir_missing",
                   "usage_nokey", "usage_unknown_opt", "usage_no_layout_opt", "usage_bad_int", "usage_bad_keytype",
@@ -339,7 +339,16 @@ VERIFY_OPTS = {
     # an inspection of a SUBLAYOUT that runs for 7 s under --inspection-timeout 5: the limit given on the command line
     # holds at every nesting depth, so verification fails (in-toto's default of 10 s would let it pass)
     "sub_insp_slow": {"insp_fail": True, "p_sub": 0.8, "_pred": "slow_inspection_below_root_only"},
+    "garbage_extra_link": {"threshold_heavy": True, "link_variants": ["honest"], "p_sub": 0.0, "_pred": "spare_functionary"},
 }
+
+
+def _spare_functionary(scen):
+    """a step with more authorised functionaries than its threshold needs"""
+    import base64
+    j = scen["root"]["json"]
+    signed = j["signed"] if "signed" in j else json.loads(base64.b64decode(j["payload"]))
+    return any(len(st.get("pubkeys", [])) > max(1, st.get("threshold", 1)) for st in signed.get("steps", []))
 
 
 def _slow_inspection_below_root_only(scen):
@@ -413,7 +422,8 @@ def b_verify(rng, d, p, ks):
     _write(os.path.join(cwd, "product.txt"), "final product\n")
     opts = dict(VERIFY_OPTS.get(cls, {}))
     need = opts.pop("_need", None)
-    pred = {"slow_inspection_below_root_only": _slow_inspection_below_root_only}.get(opts.pop("_pred", None))
+    pred = {"slow_inspection_below_root_only": _slow_inspection_below_root_only,
+            "spare_functionary": _spare_functionary}.get(opts.pop("_pred", None))
     opts.update({"deviate": False, "vary_keys": False, "root_dsse": dsse, "format": p.get("linkfmt", "mixed")})
     env = vscen.Env(rng, d)
     scen = None
@@ -435,6 +445,12 @@ def b_verify(rng, d, p, ks):
     json.dump(scen["root"]["json"], open(tmp, "w"))
     payload = Metadata.load(tmp).get_payload()
     os.remove(tmp)
+    if cls in ("expired_recently", "valid_an_hour"):
+        # the expiry instant lies one hour before / after the REAL now; the verifying process runs in a zone ten hours
+        # west / east of UTC (case parameter "tz"): expiry is a comparison of instants, whatever the local wall clock shows
+        import datetime as _dt
+        off = -3600 if cls == "expired_recently" else 3600
+        payload.expires = (_dt.datetime.now(_dt.timezone.utc) + _dt.timedelta(seconds=off)).strftime("%Y-%m-%dT%H:%M:%SZ")
     md = vscen.make_md(payload, dsse)
     signers = list(owners)
     sub = None
@@ -475,6 +491,19 @@ def b_verify(rng, d, p, ks):
     vscen.materialize(scen["dir"], os.path.join(d, "links") if use_linkdir else cwd)
     if cls == "linkdir_missing":
         link_dir = "../no-such-dir"
+    garbage_done = False
+    if cls == "garbage_extra_link":
+        # next to the intact links: the link file of ANOTHER functionary authorised for the same step, unparsable.
+        # Verification fails while loading the links (it must not be skipped like a missing file)
+        base = os.path.join(d, "links") if use_linkdir else cwd
+        lay = payload
+        for st in lay.steps:
+            have = [k for k in st.pubkeys if os.path.exists(os.path.join(base, "%s.%s.link" % (st.name, k[:8])))]
+            if len(have) > max(1, st.threshold):
+                _write(os.path.join(base, "%s.%s.link" % (st.name, have[-1][:8])),
+                       rng.choice(['{"signed": {"_type": "link", ', "\xff\xfe", "", "not json"]))
+                garbage_done = True
+                break
     # keys given on the command line
     pool_same_form = sorted(ks.legacy if keyform == "lk" else ks.pem)
     if cls == "wrong_key":
@@ -541,8 +570,10 @@ def b_verify(rng, d, p, ks):
         argv = ["-l", layout_rel, rng.choice(["--verification-keys", "--layout-keys", "--gpg"])]
         usage = True
     intent = None
-    if cls == "pass":
+    if cls in ("pass", "valid_an_hour"):
         intent = "ok"
+    elif cls == "expired_recently" or (cls == "garbage_extra_link" and garbage_done):
+        intent = "fail"
     elif cls == "bad_sig" and sub == "edited":
         intent = None     # an edit of a "_type" leaf of a step/inspection is normalised away on loading: not a failure
     elif cls in ("bad_sig", "expired", "malformed_layout", "missing_layout", "missing_key", "malformed_key", "wrong_key",
@@ -1394,10 +1425,28 @@ def expected_statuses(spec, orc):
 
 def run_case(case, work, ks, via="main", keep=False):
     """-> record dict (JSON-able)"""
-    da, db = os.path.join(work, "A"), os.path.join(work, "B")
-    shutil.rmtree(db, ignore_errors=True)
     global SCRIPTED_SECONDS
     SCRIPTED_SECONDS = float(case["params"].get("scripted_seconds", 12.0))
+    tz = case["params"].get("tz")
+    if tz:
+        import time as _time
+        old_tz = os.environ.get("TZ")
+        os.environ["TZ"] = tz
+        _time.tzset()
+        try:
+            return _run_case(case, work, ks, via, keep)
+        finally:
+            if old_tz is None:
+                os.environ.pop("TZ", None)
+            else:
+                os.environ["TZ"] = old_tz
+            _time.tzset()
+    return _run_case(case, work, ks, via, keep)
+
+
+def _run_case(case, work, ks, via="main", keep=False):
+    da, db = os.path.join(work, "A"), os.path.join(work, "B")
+    shutil.rmtree(db, ignore_errors=True)
     spec = build_case(case, da, ks)
     argv = _subst(spec.argv, ks)
     orc = {"lib": "n/a", "out": "n/a"}
